@@ -458,21 +458,29 @@ PROPS = {
                       "is trusted; thread interleavings and the TZ variable cannot be expressed in a pure "
                       "model and are covered by the effect theorem plus perturbation runs in the search. "
                       "Overflow cannot be exhibited at α := ℝ; it is covered by the Float correspondence.",
-        "lean_modules": ["Astral.Props.C20", "Astral.Props.EoT", "Astral.Props.C05Noon"],
+        "lean_modules": ["Astral.Props.C20", "Astral.Props.EoT", "Astral.Props.C05Noon",
+                         "Astral.Props.C20Total"],
         "generators": ["effects"],
         "theorems": ["Astral.C20.pure_by_effects", "Astral.C20.public_nonempty",
                      "Astral.C20.no_raw_domain_error", "Astral.C20.dawn_no_domain_error",
                      "Astral.C20.dusk_no_domain_error", "Astral.C20.tae_no_domain_error",
                      "Astral.C13.moonWrapper_outcomes", "Astral.EoT.eqOfTime_bound_wide",
                      "Astral.C05Noon.noonUtc_total", "Astral.C05Noon.noon_total",
-                     "Astral.C05Noon.midnight_total"],
+                     "Astral.C05Noon.midnight_total", "Astral.C20Total.elevationAdjustment_ok",
+                     "Astral.C20Total.minutesToTimedelta_range", "Astral.C20Total.timeOfTransit_cases",
+                     "Astral.C20Total.rematch_cases", "Astral.C20Total.dawn_outcomes",
+                     "Astral.C20Total.dusk_outcomes", "Astral.C20Total.timeAtElevation_outcomes",
+                     "Astral.C20Total.alwaysVerdict_outcomes", "Astral.C20Total.sunrise_outcomes",
+                     "Astral.C20Total.sunset_outcomes"],
         "groups": [G("corr_sun", "sun_extreme", 4000, 100000), G("corr_sun", "sun_events", 2500, 50000),
                    G("corr_sun", "sun_angles", 2500, 50000), G("corr_moon", "moon_riseset", 1500, 30000),
                    G("corr_moon", "moon_angles", 1500, 30000)],
         "unproved": ["totality of the float chain at extreme magnitudes (ℝ cannot overflow)",
-                     "a full 'only documented ValueErrors' theorem for the event functions at α := ℝ (proved: "
-                     "noon and midnight never fail, for every date 0001-01-03 … 9999-12-29, every "
-                     "longitude and zone; dawn/dusk/time_at_elevation never leak a math domain error)"],
+                     "the 'only documented ValueErrors' theorems (C20Total) are over exact reals: dawn, dusk, "
+                     "time_at_elevation, sunrise, sunset, noon and midnight, for every date 0001-01-03 … "
+                     "9999-12-28, every longitude in [-180, 180], float or tuple elevation and every zone; "
+                     "the periods (daylight, night, twilight, golden/blue hour, rahukaalam, sun) compose "
+                     "them and are not restated; the moon functions are covered by C13.moonWrapper_outcomes"],
         "assumes": ["soundness of the effect extraction for the Python subset astral uses"],
         "trusted_extra": ["harness/effects.py (static effect summary, over-approximation)"],
     },
